@@ -248,7 +248,14 @@ impl KeyMaterial {
     let bad = |what: &str| LibErr::other(format!("{}: key material of the wrong length for {}", what, proto.label()));
     match proto {
       p if p.is_local() => {
-        km.sym = Some(Key::<32>::from(arr::<32>(public).ok_or_else(|| bad("symmetric"))?));
+        // all public ways of making a Key<32> from bytes are used in turn
+        let a = arr::<32>(public).ok_or_else(|| bad("symmetric"))?;
+        km.sym = Some(match a[31] % 4 {
+          0 => Key::<32>::from(a),
+          1 => Key::<32>::from(&a),
+          2 => Key::<32>::from(&a[..]),
+          _ => Key::<32>::try_from(hex::encode(a).as_str()).map_err(|e| LibErr::other(format!("hex key rejected: {e:?}")))?,
+        });
       }
       Proto::V2P | Proto::V4P => {
         if let Some(s) = secret {
